@@ -602,3 +602,28 @@ SPECS["C17"]["level_text"] += ("; parse_text_file hands on every line of the fil
 SPECS["C04"]["contracts"] += ["smpl_extract.generalized.wav:export_wav"]
 SPECS["C04"]["level_text"] += ("; export_wav opens exactly the given path in mode 'wb' (truncating), builds into it exactly once from the given sample and passes a builder error on "
                                "without a second attempt into the same stream (open / build_stream assumed)")
+
+# C14 / C15: the per-file content parser turns every failure class of damaged / cut-off content into ConstructError
+for _p in ("C14", "C15"):
+    SPECS[_p]["contracts"] += ["smpl_extract.akai.file:FileAdapter._parse"]
+SPECS["C15"]["level_text"] += "; FileAdapter._parse lets nothing but ConstructError out (SectorReadError of a cut-off image, struct.error, InvalidCharacter, RequestedInvalidSector included)"
+
+# C02 / C14: the four sample slots of a Roland partial are resolved independently
+for _p in ("C02", "C14"):
+    SPECS[_p]["contracts"] += ["smpl_extract.roland.s7xx.partial_entry:PartialEntryAdapter._parse"]
+SPECS["C14"]["level_text"] += "; PartialEntryAdapter._parse: a slot whose reference cannot be resolved is left out and every other slot - before or behind it - is kept in slot order (all 3^4 outcomes)"
+SPECS["C02"]["level_text"] += "; the partial's four sample slots are resolved independently (slots need not be filled front to back)"
+
+# C02: the sample files of one patch - every referenced sample once, none that another patch of the performance already gave
+SPECS["C02"]["contracts"] += [f"smpl_extract.roland.s7xx.sample_file:SampleFileListAdapter._decode[{t}]" for t in ("in-a-performance", "no-performance-context")]
+SPECS["C02"]["level_text"] += ("; SampleFileListAdapter._decode: a patch's sample files are exactly the samples its partials refer to, each once, in order of first reference, minus those "
+                               "the performance-wide set already holds, which it extends (ANY indices, equal or not; symbolic-key set)")
+SPECS["C02"]["not_covered"] = [x for x in SPECS["C02"].get("not_covered", []) if "SampleFileListAdapter" not in x] + ["get_file / _get_*_params glue beyond the contracts listed", "PerformanceEntry.files (the loop over patches) as a contract"]
+
+# C19: the saturation helpers of the 16-bit presets, translated mechanically from the .pyx text
+SPECS["C19"]["contracts"] += ["lemma:fir_preset_saturates", "lemma:iir_preset_saturates"]
+SPECS["C19"]["level_text"] += ("; the scalar cdef helpers every output sample of the ChickenSys presets goes through (_c_bound_and_fix; _c_bound + _c_fix_int), translated mechanically "
+                               "from the .pyx text on every run, are proved to SATURATE for every real input: the value reaching the final <short> conversion is inside the int16 range "
+                               "(no wrap-around), out-of-range inputs land on the limit of their side, in-range inputs are rounded / cut toward zero")
+SPECS["C19"]["not_covered"] = ["iir.pyx kernels (_c_process, _c_chickensys_process: circular buffers, memory views)", "_c_chicken_sys_convolve_valid (typed loops over memory views)", "filter presets' coefficients"]
+SPECS["C19"].setdefault("assumptions", []).append("C doubles read as exact reals in the saturation lemmas")
